@@ -21,7 +21,7 @@ impl AmbiguousDiffMinusCounter {
     pub open spec fn counting(&self) -> bool { self.0 >= 1 }
 
     //@ fn src/handlers/hunk_header.rs AmbiguousDiffMinusCounter::not_needed
-    //@| ensures !r.needed(),
+    //@| ensures !r.needed(),  // @C10:a.counter.that.is.not.needed.says.so
     //@ fn src/handlers/hunk_header.rs AmbiguousDiffMinusCounter::prepare_to_count
     //@| ensures r.needed() && !r.counting(),  // @C10:the.first.file.header.of.an.ambiguous.diff.is.expected
     //@ fn src/handlers/hunk_header.rs AmbiguousDiffMinusCounter::three_dashes_expected
